@@ -24,6 +24,10 @@
 #include "stir/ProjDataInMemory.h"
 #include "stir/SegmentByView.h"
 #include "stir/IndexRange3D.h"
+#include "stir/MultipleDataSetHeader.h"
+#include "stir/listmode/CListModeDataECAT8_32bit.h"
+#include "stir/listmode/CListRecord.h"
+#include "stir/Bin.h"
 #include <sstream>
 #include <fstream>
 #include <cstring>
@@ -803,14 +807,238 @@ read_image_checked(const std::string& hv, const char* fault, long at)
   (void)at;
 }
 
+
+// ---- vendor flavours of the projection-data header (Siemens sinogram sub-header of the mMR, Interfile 3.3 SPECT), the Siemens
+// list-mode header and the "Multi" header that lists the files of a dynamic / parametric data set
+std::string
+siemens_sinogram_header(const std::string& data_file, int tang, int views, int max_delta)
+{
+  std::string table = "{64";
+  int sinos = 64;
+  for (int d = 1; d <= max_delta; ++d)
+    {
+      table += "," + std::to_string(64 - d) + "," + std::to_string(64 - d);
+      sinos += 2 * (64 - d);
+    }
+  table += "}";
+  std::ostringstream h;
+  h << "!INTERFILE:=\n%comment:=Sinogram SubHeader for MR-PET VA20\n!originating system:=2008\n"
+       "%SMS-MI header name space:=sinogram subheader\n%SMS-MI version number:=3.4\n!GENERAL DATA:=\n%listmode header file:=\n"
+       "%listmode data file:=\n!name of data file:="
+    << data_file
+    << "\n%compression:=off\n%compressor version:=1.1\n!GENERAL IMAGE DATA:=\n%study date (yyyy:mm:dd):=2017:03:27\n"
+       "%study time (hh:mm:ss GMT+00:00):=17:33:38\nisotope name:=F-18\nisotope gamma halflife (sec):=6586.2\n"
+       "isotope branching factor:=0.97\nradiopharmaceutical:=FDG\n%tracer injection date (yyyy:mm:dd):=2017:03:27\n"
+       "%tracer injection time (hh:mm:ss GMT+00:00):=16:07:00\nrelative time of tracer injection (sec):=0\n"
+       "tracer activity at time of injection (Bq):=4.65e+007\ninjected volume (ml):=0.0\nimage data byte order:=LITTLEENDIAN\n"
+       "%patient orientation:=HFS\n!PET data type:=emission\ndata format:=sinogram\nnumber format:=signed integer\n"
+       "!number of bytes per pixel:=2\nnumber of dimensions:=3\nmatrix axis label [1]:=bin\nmatrix axis label [2]:=projection\n"
+       "matrix axis label [3]:=plane\nmatrix size [1]:="
+    << tang << "\nmatrix size [2]:=" << views << "\nmatrix size [3]:=" << sinos
+    << "\nscale factor (mm/pixel) [1]:=2.0445\nscale factor (degree/pixel) [2]:=0.714286\nscale factor (mm/pixel) [3]:=2.03125\n"
+       "horizontal bed translation:=stepped\nstart horizontal bed position (mm):=0.0\nend horizontal bed position (mm):=0.0\n"
+       "start vertical bed position (mm):=0.0\n%axial compression:=1\n%maximum ring difference:="
+    << max_delta << "\nnumber of rings:=64\n%number of segments:=" << 2 * max_delta + 1 << "\n%segment table:=" << table
+    << "\n%total number of sinograms:=" << sinos
+    << "\n%coincidence window width (ns):=5.85938\nnumber of energy windows:=1\n%energy window lower level (keV) [1]:=430\n"
+       "%energy window upper level (keV) [1]:=610\ngantry tilt angle (degrees):=0.0\napplied corrections:=\n"
+       "method of attenuation correction:=\nmethod of scatter correction:=\n%method of random correction:=none\n"
+       "%decay correction:=none\n%decay correction reference date (yyyy:mm:dd):=1970:01:01\n"
+       "%decay correction reference time (hh:mm:ss GMT+00:00):=00:00:00\ndecay correction factor:=1\nscatter fraction (%):=0.0\n"
+       "%number of TOF time bins:=1\n%TOF mashing factor:=1\nnumber of scan data types:=2\nscan data type description [1]:=prompts\n"
+       "scan data type description [2]:=randoms\ndata offset in bytes [1]:=0\ndata offset in bytes [2]:="
+    << (long)tang * views * sinos * 2
+    << "\n!IMAGE DATA DESCRIPTION:=\n!total number of data sets:=1\ntotal prompts events [1]:=266376759\ntotal prompts:=266376759\n"
+       "%total randoms:=51663853\n%total net trues:=214712906\n!image duration (sec):=1140\n!image relative start time (sec):=0.0\n"
+       "%image duration from timing tags (msec):=1140012\n%GIM loss fraction:=1\n%PDR loss fraction:=1\n%DETECTOR BLOCK SINGLES:=\n"
+       "%number of buckets:=4\n%total uncorrected singles rate:=4865079\n%bucket singles rate [1]:=21000\n"
+       "%bucket singles rate [2]:=21001\n%bucket singles rate [3]:=21002\n%bucket singles rate [4]:=21003\nEND OF INTERFILE :=\n";
+  return h.str();
+}
+
+std::string
+spect_header(const std::string& data_file, int bins, int planes, int projections)
+{
+  std::ostringstream h;
+  h << "!INTERFILE  :=\n!imaging modality := nucmed\n!version of keys := 3.3\nname of data file := " << data_file
+    << "\n;data offset in bytes := 0\n\n!GENERAL IMAGE DATA :=\n!type of data := Tomographic\nimagedata byte order := LITTLEENDIAN\n"
+       "!number format := float\n!number of bytes per pixel := 4\n\n!SPECT STUDY (General) := \npatient orientation := head_in\n"
+       "patient rotation :=  supine\n;number of dimensions := 2\n;matrix axis label [2] := axial coordinate\n!matrix size [2] := "
+    << planes << "\n!scaling factor (mm/pixel) [2] := 3.32\n;matrix axis label [1] := bin coordinate\n!matrix size [1] := " << bins
+    << "\n!scaling factor (mm/pixel) [1] := 3.32\n!number of projections := " << projections
+    << "\n!extent of rotation := 360\n!process status := acquired\n\n!SPECT STUDY (acquired data) :=\n!direction of rotation := CW\n"
+       "start angle := 180\norbit := circular\nradius := 150\n\n!END OF INTERFILE :=\n";
+  return h.str();
+}
+
+std::string
+siemens_listmode_header(const std::string& data_file, int max_delta)
+{
+  std::string table = "{64";
+  for (int d = 1; d <= max_delta; ++d)
+    table += ", " + std::to_string(64 - d) + ", " + std::to_string(64 - d);
+  table += "}";
+  return "!INTERFILE:=\n!originating system:=2008\n%SMS-MI header name space:=PETLINK bin address\n%SMS-MI version number:=3.4\n\n"
+         "!GENERAL DATA:=\n!data offset in bytes:=0\nname of data file:="
+         + data_file
+         + "\n\n!GENERAL IMAGE DATA:=\n!type of data:=PET\n%study date (yyyy:mm:dd):=2017:03:27\n%study time (hh:mm:ss GMT+00:00):=17:00:35\n"
+           "isotope name:=F-18\nisotope gamma halflife (sec):=6586.2\nisotope branching factor:=0.97\nradiopharmaceutical:=FDG\n"
+           "relative time of tracer injection (sec):=0\ntracer activity at time of injection (Bq):=4.65e+007\ninjected volume (ml):=0\n"
+           "%tracer injection date (yyyy:mm:dd):=2017:03:27\n%tracer injection time (hh:mm:ss GMT+00:00):=16:07:00\n"
+           "%patient orientation:=HFS\nPET data type:=Emission\ndata format:=CoincidenceList\nhorizontal bed translation:=stepped\n"
+           "start horizontal bed position (mm):=0\nend horizontal bed position (mm):=0\nstart vertical bed position (mm):=0\n"
+           "%bed zero offset (mm):=0\nnumber of energy windows:=1\n%energy window lower level (keV) [1]:=430\n"
+           "%energy window upper level (keV) [1]:=610\n\n!PET STUDY (Emission data):=\nPET scanner type:=cylindrical\n"
+           "transaxial FOV diameter (cm):=59.6\nnumber of rings:=64\ndistance between rings (cm):=0.40625\ngantry tilt angle (degrees):=0\n"
+           "gantry crystal radius (cm):=32.8\nbin size (cm):=0.20445\nsepta state:=none\n%number of TOF time bins:=1\n%TOF mashing factor:=1\n\n"
+           "!IMAGE DATA DESCRIPTION:=\n%preset type:=time\n%preset value:=900\n%preset unit:=seconds\nimage duration (sec):=900\n"
+           "%total listmode word counts:=1000\n\n%COINCIDENCE LIST DATA:=\n%LM event and tag words format (bits):=32\n"
+           "%timing tagwords interval (msec):=1\n%singles polling method:=instantaneous\n%singles polling interval (sec):=2\n"
+           "%singles scale factor:=8\n%total number of singles blocks:=224\n%axial compression:=1\n%maximum ring difference:="
+         + std::to_string(max_delta) + "\n%number of projections:=344\n%number of views:=252\n%number of segments:="
+         + std::to_string(2 * max_delta + 1) + "\n%segment table:=" + table + "\n%time_sync:=25934299\n";
+}
+
+// list-mode header: accepted -> every record of the (small) data file can be fetched and mapped to a bin of the announced
+// geometry without touching memory outside the tables
+void
+read_listmode_checked(const std::string& hdr, const char* fault, long at)
+{
+  sim::alloc::reset();
+  try
+    {
+      ecat::CListModeDataECAT8_32bit lm(hdr);
+      check_allocation_cap(fault, "a list-mode header");
+      shared_ptr<CListRecord> rec = lm.get_empty_record_sptr();
+      long n = 0;
+      while (n < 1000 && lm.get_next_record(*rec) == Succeeded::yes)
+        {
+          ++n;
+          if (rec->is_event())
+            {
+              Bin b;
+              rec->event().get_bin(b, *lm.get_proj_data_info_sptr());
+            }
+        }
+      check_allocation_cap(fault, "a list-mode header");
+      sim::probe("damaged_header_accepted_consistent");
+    }
+  catch (const sim::Violation&)
+    {
+      throw;
+    }
+  catch (...)
+    {
+      check_allocation_cap(fault, "a list-mode header");
+      sim::probe("damaged_header_rejected");
+    }
+  (void)at;
+}
+
+// Multi header: accepted -> every data set it announces has a file name
+void
+read_multi_checked(const std::string& hdr, const char* fault, long at)
+{
+  sim::alloc::reset();
+  try
+    {
+      MultipleDataSetHeader h;
+      const bool ok = h.parse(hdr.c_str());
+      check_allocation_cap(fault, "a Multi header");
+      if (!ok)
+        {
+          sim::probe("damaged_header_rejected");
+          return;
+        }
+      for (std::size_t i = 0; i < h.get_num_data_sets(); ++i)
+        {
+          std::string name;
+          try
+            {
+              name = h.get_filename(i);
+            }
+          catch (...)
+            {
+              sim::fail(std::string("multi_header_inconsistent:") + fault,
+                        "Multi header damaged by %s at %ld was accepted with %zu data sets, but data set %zu has no entry", fault, at,
+                        h.get_num_data_sets(), i + 1);
+            }
+          if (name.empty())
+            sim::fail(std::string("multi_header_inconsistent:") + fault,
+                      "Multi header damaged by %s at %ld was accepted with %zu data sets, but the name of data set %zu is empty", fault, at,
+                      h.get_num_data_sets(), i + 1);
+        }
+      sim::probe("damaged_header_accepted_consistent");
+    }
+  catch (const sim::Violation&)
+    {
+      throw;
+    }
+  catch (...)
+    {
+      check_allocation_cap(fault, "a Multi header");
+      sim::probe("damaged_header_rejected");
+    }
+}
+
 void
 op_interfile(const Plan& p, const Op& op, sim::Result& res)
 {
   res.cls = op.kind;
   const std::string dir = sim::scratch_dir();
   const bool projdata = op.kind.find("pd") != std::string::npos;
+  const bool listmode = op.kind.find("_lm_") != std::string::npos, multi = op.kind.find("multi") != std::string::npos;
+  const int flavour = projdata ? (int)(p.c("pd_flavour", 0) % 3) : 0;
   std::string header_path, data_path;
-  if (projdata)
+  if (listmode)
+    {
+      header_path = dir + "/acq.l.hdr";
+      data_path = dir + "/acq.l";
+      spit_text(header_path, siemens_listmode_header("acq.l", 1 + (int)(p.c("nrings", 0) % 2)));
+      // a handful of words: time tags, prompts and delayeds at small offsets, a foreign tag
+      std::string words;
+      sim::Rng wr(sim::mix(p.seed, 5));
+      for (int i = 0; i < 40; ++i)
+        {
+          uint32_t v = i % 5 == 0 ? ((1u << 31) | (uint32_t)(i * 200)) : (i % 13 == 7 ? ((1u << 31) | (2u << 29) | 5u) : ((uint32_t)wr.below(344u * 252u * 190u) | ((uint32_t)wr.below(2) << 30)));
+          words.append((const char*)&v, 4);
+        }
+      spit_text(data_path, words);
+      sim::probe("listmode_header_checked");
+    }
+  else if (multi)
+    {
+      header_path = dir + "/dyn.txt";
+      data_path = dir + "/dyn.txt";
+      const int n = 2 + (int)(p.c("nz", 0) % 3);
+      std::ostringstream h;
+      h << "Multi :=\n\ttotal number of data sets := " << n << "\n";
+      for (int i = 1; i <= n; ++i)
+        h << "\tdata set[" << i << "] := frame_" << i << ".hv\n";
+      h << "End :=\n";
+      spit_text(header_path, h.str());
+      sim::probe("multi_header_checked");
+    }
+  else if (projdata && flavour == 1)
+    {
+      header_path = dir + "/pd.s.hdr";
+      data_path = dir + "/pd.s";
+      const int tang = 5 + 2 * (int)(p.c("ndet4", 0) % 3), views = p.c("span3", 0) ? 42 : 36, delta = (int)(p.c("nrings", 0) % 2);
+      spit_text(header_path, siemens_sinogram_header("pd.s", tang, views, delta));
+      const size_t sinos = delta ? 190 : 64;
+      spit_text(data_path, std::string((size_t)tang * views * sinos * 2 * 2, '\1'));
+      sim::probe("siemens_sinogram_header_checked");
+    }
+  else if (projdata && flavour == 2)
+    {
+      header_path = dir + "/spect.hs";
+      data_path = dir + "/spect.s";
+      const int bins = 8 + 4 * (int)(p.c("ndet4", 0) % 3), planes = 2 + (int)(p.c("nrings", 0) % 3), proj = 12;
+      spit_text(header_path, spect_header("spect.s", bins, planes, proj));
+      spit_text(data_path, std::string((size_t)bins * planes * proj * 4, '\0'));
+      sim::probe("spect_header_checked");
+    }
+  else if (projdata)
     {
       const int ndet = 4 * (2 + (int)(p.c("ndet4", 2) % 3)), nrings = 1 + (int)(p.c("nrings", 2) % 3);
       shared_ptr<Scanner> sc = vu::make_scanner(ndet, nrings, p.c("tof", 0) ? 3 : 0);
@@ -833,7 +1061,11 @@ op_interfile(const Plan& p, const Op& op, sim::Result& res)
     }
   const std::string header = slurp_text(header_path), data = slurp_text(data_path);
   auto check = [&](const char* fault, long at) {
-    if (projdata)
+    if (listmode)
+      read_listmode_checked(header_path, fault, at);
+    else if (multi)
+      read_multi_checked(header_path, fault, at);
+    else if (projdata)
       read_projdata_checked(header_path, data_path, fault, at);
     else
       read_image_checked(header_path, fault, at);
@@ -966,13 +1198,16 @@ gen(uint64_t seed, const std::string& tier, long idx)
   p.cfg["span3"] = r.chance(0.4);
   p.cfg["nz"] = r.range(0, 3);
   p.cfg["max_positions"] = tier == "thorough" ? 1000000 : 300;
+  p.cfg["pd_flavour"] = r.chance(0.5) ? 0 : r.range(1, 2);
   static const char* kinds[] = { "registry_round_trip", "registry_eof", "registry_badbit", "registry_flip", "registry_lines", "keyparser",
                                  "interfile_pd_eof", "interfile_pd_flip", "interfile_pd_lines", "interfile_pd_datasize", "interfile_img_eof",
                                  "interfile_img_flip", "interfile_img_lines", "interfile_img_datasize", "keyparser", "registry_round_trip",
-                                 "registry_values", "registry_index", "interfile_pd_index", "interfile_img_index" };
+                                 "registry_values", "registry_index", "interfile_pd_index", "interfile_img_index",
+                                 "interfile_lm_eof", "interfile_lm_flip", "interfile_lm_lines", "interfile_lm_index",
+                                 "multi_eof", "multi_flip", "multi_lines", "multi_index" };
   Op o;
-  o.kind = kinds[idx % 20];
-  o.a.push_back(idx / 20 + (long)r.below(3) * 1000003L); // class index walks through all registered classes
+  o.kind = kinds[idx % 28];
+  o.a.push_back(idx / 28 + (long)r.below(3) * 1000003L); // class index walks through all registered classes
   o.a.push_back((long)r.below(100000));
   p.ops.push_back(o);
   (void)tier;
